@@ -2,7 +2,7 @@
 import re
 
 from ..engine import prop, rule
-from ..facts import op_local, op_place, is_place, backward_slice, copy_chain_sources, IDENTITY_CALLS, field_path
+from ..facts import op_local, op_place, is_place, backward_slice, copy_chain_sources, IDENTITY_CALLS, field_path, switch_on, bool_edges
 from .. import lib
 from . import c14
 
@@ -375,3 +375,121 @@ def and_or_identities(ctx):
                         ps.add(s[1])
             ctx.check(ps == {1, 2}, key, '%s of both operands' % comb, 'the %s built at line %d does not combine the two operands (%s)'
                       % (comb, st['ln'], sorted(ps)), 'lhs and rhs', body.where(st['ln']))
+
+
+def broadcast_edges(F, body, param):
+    """Edges on which parameter `param` (1-based) of an AccessPolicy operator is known to be Broadcast: the equal edge of
+    `p == Broadcast`, or the Broadcast arm of a match on p (possibly moved into a tuple first)."""
+    out = []
+    for (c, te, fe) in __import__('analyses.props.c02', fromlist=['eq_guards']).eq_guards(body):
+        if AP not in (c.self_ty or ''):
+            continue
+        sides = []
+        for a in c.args:
+            k = lib.enum_const(F, body, a)
+            ps = [s[1] for s in lib.copy_chain_sources(body, a, through_calls=tuple(lib.IDENTITY_CALLS)) if s[0] == 'param']
+            sides.append((k, ps))
+        for i in (0, 1):
+            if sides[i][0] == 'Broadcast' and param in sides[1 - i][1] and te is not None:
+                out.append(te)
+    names = [v['name'] for v in F.adts[AP]['variants']]
+    bi = names.index('Broadcast')
+    for b in sorted(body.live_blocks()):
+        t_ = body.term(b)
+        if t_['k'] != 'switch' or not is_place(t_['d']):
+            continue
+        _, d = lib.resolve_copy(body, op_local(t_['d']))
+        if d is None or d.kind != 'assign' or d.rv['k'] != 'discr':
+            continue
+        srcs = lib.copy_chain_sources(body, {'cp': d.rv['pl']}, through_calls=tuple(lib.IDENTITY_CALLS))
+        if srcs and all(s[0] == 'param' and s[1] == param and not [x for x in s[2] if not str(x).startswith('@')] for s in srcs):
+            for v, tgt in t_['cases']:
+                if v == bi:
+                    out.append((b, tgt))
+    return out
+
+
+def same_operand_edges(F, body):
+    """Equal edges of `self == rhs`."""
+    out = []
+    for (c, te, fe) in __import__('analyses.props.c02', fromlist=['eq_guards']).eq_guards(body):
+        if AP not in (c.self_ty or ''):
+            continue
+        ps = []
+        for a in c.args:
+            ps.append(set(s[1] for s in lib.copy_chain_sources(body, a, through_calls=tuple(lib.IDENTITY_CALLS)) if s[0] == 'param'))
+        if ps[0] and ps[1] and ((1 in ps[0] and 2 in ps[1]) or (2 in ps[0] and 1 in ps[1])) and te is not None:
+            out.append(te)
+    return out
+
+
+@rule('C15', 'lone-operand-only-when-absorbed')
+def lone_operand_only_when_absorbed(ctx):
+    """`a & b` may return a alone only when b is `*` (or b == a), `a | b` may return a alone only when a is `*` (or b == a): every
+    block that makes an operand the result is dominated by the corresponding test. Returning one side under any other condition
+    (`x | (x | y)` simplified to x, say) silently drops the other side of the expression."""
+    F = ctx.F
+    n = 0
+    for (key, is_and) in (('<%s as std::ops::BitAnd>::bitand' % AP, True), ('<%s as std::ops::BitOr>::bitor' % AP, False)):
+        body = F.fn(key)
+        same = same_operand_edges(F, body)
+        # (block, param): the places where an operand, as it came, becomes (what will be) the result — followed back through
+        # the bindings of or-patterns, which give the result local one definition per alternative
+        events = []
+        seen = set()
+
+        def walk(l, depth=0):
+            if (l in seen) or depth > 8:
+                return
+            seen.add(l)
+            for d in body.defs().get(l, []):
+                if d.kind != 'assign' or d.lhs['p'] or d.rv['k'] != 'use' or not is_place(d.rv['a']):
+                    continue
+                src = op_place(d.rv['a'])
+                srcs = lib.copy_chain_sources(body, d.rv['a'], through_calls=tuple(lib.IDENTITY_CALLS))
+                ps = set(s[1] for s in srcs if s[0] == 'param')
+                if srcs and all(s[0] == 'param' for s in srcs) and len(ps) == 1:
+                    events.append((d.b, list(ps)[0], body.stmts(d.b)[d.i]['ln']))
+                elif not src['p'] and not body.is_param(src['l']):
+                    walk(src['l'], depth + 1)
+        walk(0)
+        for (b, p, ln) in sorted(set(events)):
+            other = 3 - p
+            n += 1
+            # AND: the OTHER operand is `*`;  OR: THIS operand is `*`
+            edges = broadcast_edges(F, body, other if is_and else p) + same
+            ctx.check(bool(edges) and body.edges_dominate(edges, b), key, 'operand %d returned alone only when absorbed' % p,
+                      '%s returns its %s operand alone (line %d) on a path where the other one is not known to be absorbed: part of '
+                      'the boolean expression is dropped' % (key.split('::')[-1], 'left' if p == 1 else 'right', ln),
+                      'under the `*` / same-operand test', body.where(ln))
+    ctx.floor(n, 1, 'lone-operand returns of the AccessPolicy operators')
+
+
+@rule('C15', 'broadcast-is-the-whole-star')
+def broadcast_is_the_whole_star(ctx):
+    """'attribute names are preserved exactly': the parser yields Broadcast only for an expression that IS `*` (string equality
+    with the literal); a `*` that merely starts a token belongs to the attribute name (`*SEC::TOP`)."""
+    F = ctx.F
+    key = 'abe_policy::access_policy::AccessPolicy::parse'
+    body = F.fn(key)
+    n = 0
+    for fb in lib.family_ext(F, key):
+        star_edges = []
+        for c in fb.calls(r'^std::cmp::PartialEq::eq$'):
+            if 'str' not in (c.self_ty or ''):
+                continue
+            lits = [lib.const_label(F, fb, a) for a in c.args]
+            if any(isinstance(l, tuple) and l[0] == 'lit' and l[1] == '"*"' for l in lits if l is not None):
+                for (sb, neg) in switch_on(fb, c.dest['l']):
+                    te, fe = bool_edges(fb, sb, neg)
+                    if te:
+                        star_edges.append(te)
+        for b in sorted(fb.live_blocks()):
+            for st in fb.stmts(b):
+                rv = st['rv']
+                if rv['k'] == 'agg' and rv.get('adt') == AP and rv['variant'] == 'Broadcast':
+                    n += 1
+                    ctx.check(bool(star_edges) and fb.edges_dominate(star_edges, b), key, 'Broadcast <= expression == "*"',
+                              'parse produces Broadcast (line %d) without the remaining expression being exactly "*": a star that begins '
+                              'an attribute name is swallowed' % st['ln'], 'under e == "*"', fb.where(st['ln']))
+    ctx.floor(n, 1, 'Broadcast constructions in parse')
